@@ -50,7 +50,10 @@ def crlf_inputs(tier, rng, gen_texts):
     ex = [s for s in pc.enum_strings(alpha, 4 if quick else 5) if "\n" in s]
     # comment / metadata / section / fence characters, where line ends matter most
     alpha2 = ["a", " ", "\n", "-", "[", "]", ">", ":", "=", "@", "{", "}"]
-    ex2 = [s for s in pc.enum_strings(alpha2, 5 if quick else 6, minlen=5) if "\n" in s]
+    ex2 = [s for s in pc.enum_strings(alpha2, 5, minlen=5) if "\n" in s]
+    if not quick:
+        six = [s for s in pc.enum_strings(alpha2, 6, minlen=6) if "\n" in s]
+        ex2 += rng.sample(six, 200000)
     muts = []
     for t in gen_texts:
         for _ in range(1 if quick else 3):
@@ -161,7 +164,10 @@ def run(rep, tier, seed):
         rng.shuffle(long_)
         edited_c = short + long_[:12000]
     else:
-        edited_c = edited
+        short = [e for e in edited if len(e) <= 5]
+        long_ = [e for e in edited if len(e) > 5]
+        rng.shuffle(long_)
+        edited_c = short + long_[:150000]
     dis, ncases, npan = pc.lev_disagreements(paths, edited_c, [0, pc.EXT_ALL])
 
     common.decide(rep, PID, "metamorphic monitor on parse results + L-lex/L-ev on the edited texts", audit, hits, dis,
@@ -176,10 +182,10 @@ def run(rep, tier, seed):
                 "extensions/bundled converter) x {crlf, trail_comment, trail_space, mid_comment, mid_comment_spaced, "
                 "extra_lines} x %d tapes (one point / up to four / every legal point), plus trail_comment+crlf; "
                 "CRLF on every input without backslash or lone CR: exhaustive strings containing a newline (%d; "
-                "length <= %d over the 16-symbol core alphabet and length %s over a 12-symbol comment/metadata "
+                "length <= %d over the 16-symbol core alphabet and %s over a 12-symbol comment/metadata "
                 "alphabet), front-matter line arrangements (%d), one-token mutations of generated recipes (%d), "
                 "specials, each under both profiles; distinct_nontrivial = distinct (edited text, extensions) with "
-                "edited != source" % (ngen, len(HANDMADE), ntapes, n_ex, 4 if quick else 5, "5" if quick else "5-6", n_fm, n_mut),
+                "edited != source" % (ngen, len(HANDMADE), ntapes, n_ex, 4 if quick else 5, "all of length 5" if quick else "all of length 5 + 200000 sampled of length 6", n_fm, n_mut),
         "samples": [dict(edit=k, **v) for k, v in samples.items()],
         "per_edit": per_edit,
         "edit_points_used": sum(v["edit_points"] for v in per_edit.values()),
